@@ -52,7 +52,34 @@ fn w<T>(f: impl FnOnce(&mut World) -> T) -> T {
 }
 
 fn ev(s: String) {
-    w(|w| w.out.push(s));
+    // (also reached from destructors that run while the thread's locals are being torn down)
+    let _ = W.try_with(|w| {
+        if let Ok(mut w) = w.try_borrow_mut() {
+            w.out.push(s);
+        }
+    });
+}
+
+// Handles an application keeps in a thread-local of its own, created before
+// any Stakker: they are dropped by that thread-local's destructor when the
+// thread exits, after the runtime's own thread-locals are gone
+struct ParkH {
+    own: Option<ActorOwn<Node>>,
+    ret: Option<Ret<i64>>,
+    d: Option<Deferrer>,
+}
+impl Drop for ParkH {
+    fn drop(&mut self) {
+        // a drop handler that uses its Deferrer, as the documentation recommends
+        if let Some(d) = self.d.take() {
+            d.defer(|_| {});
+        }
+        drop(self.ret.take());
+        drop(self.own.take());
+    }
+}
+thread_local! {
+    static PARKED: RefCell<Vec<ParkH>> = const { RefCell::new(Vec::new()) };
 }
 
 fn base() -> Instant {
@@ -186,16 +213,24 @@ impl Tok {
     }
 }
 
-fn drop_leftovers(ids: (Vec<i64>, Vec<i64>)) {
-    // Closure captures are dropped when the closure finishes
-    for r in ids.1 {
-        let x = w(|w| w.rets.remove(&r));
-        drop(x);
+// Closure captures are dropped when the closure finishes -- or when a
+// panic unwinds through it
+struct Leftovers(Vec<i64>, Vec<i64>);
+impl Drop for Leftovers {
+    fn drop(&mut self) {
+        for r in std::mem::take(&mut self.1) {
+            let x = w(|w| w.rets.remove(&r));
+            drop(x);
+        }
+        for o in std::mem::take(&mut self.0) {
+            let x = w(|w| w.owns.remove(&o));
+            drop(x);
+        }
     }
-    for o in ids.0 {
-        let x = w(|w| w.owns.remove(&o));
-        drop(x);
-    }
+}
+
+fn drop_leftovers(l: Leftovers) {
+    drop(l);
 }
 
 impl Drop for Tok {
@@ -269,7 +304,7 @@ fn run_item(s: &mut Stakker, tok: Tok) {
     let id = tok.id();
     ev(format!(r#"{{"e":"x","item":{},"now":{}}}"#, id, tj(s.now())));
     tok.ran.set(true);
-    let left = tok.unpack();
+    let left = { let (o, r) = tok.unpack(); Leftovers(o, r) };
     let def = tok.def.clone();
     if let Some(ops) = def.get("ops").and_then(|v| v.as_array()) {
         exec_ops(ops, &mut Ctx::S(s));
@@ -290,9 +325,27 @@ impl Drop for VTok {
     }
 }
 
+// What an actor value defers from its own Drop, through Actor::defer
+struct VDefer {
+    me: Option<Actor<Node>>,
+    items: Vec<Value>,
+}
+impl Drop for VDefer {
+    fn drop(&mut self) {
+        if let Some(me) = self.me.take() {
+            for item in self.items.drain(..) {
+                let tok = Tok::new(&item);
+                submit_ev("main", &item, r#","via":"actor""#.to_string());
+                me.defer(move |s| run_item(s, tok));
+            }
+        }
+    }
+}
+
 struct Node {
     // Field order matters: kept handles are dropped after `vtok`
     vtok: VTok,
+    vdefer: VDefer,
     slab: ActorOwnSlab<Node>,
     aid: i64,
     running: bool,
@@ -304,6 +357,7 @@ impl Node {
     fn new(aid: i64) -> Self {
         Node {
             vtok: VTok { aid },
+            vdefer: VDefer { me: None, items: Vec::new() },
             aid,
             running: false,
             kept_owns: Vec::new(),
@@ -322,7 +376,7 @@ impl Node {
             aid
         ));
         tok.ran.set(true);
-        let left = tok.unpack();
+        let left = { let (o, r) = tok.unpack(); Leftovers(o, r) };
         let def = tok.def.clone();
         if let Some(ops) = def.get("ops").and_then(|v| v.as_array()) {
             exec_ops(ops, &mut Ctx::P(aid, cx));
@@ -352,7 +406,7 @@ impl Node {
             self.aid
         ));
         tok.ran.set(true);
-        let left = tok.unpack();
+        let left = { let (o, r) = tok.unpack(); Leftovers(o, r) };
         let def = tok.def.clone();
         if let Some(ops) = def.get("ops").and_then(|v| v.as_array()) {
             exec_ops(ops, &mut Ctx::M(self, cx));
@@ -411,7 +465,10 @@ fn cause_str(c: &Option<StopCause>) -> String {
 
 fn mk_notify(aid: i64) -> Ret<StopCause> {
     Ret::new(move |c: Option<StopCause>| {
-        let z = w(|w| w.refs.get(&aid).map(|a| a.is_zombie()));
+        let z = W
+            .try_with(|w| w.try_borrow().ok().and_then(|w| w.refs.get(&aid).map(|a| a.is_zombie())))
+            .ok()
+            .flatten();
         ev(format!(
             r#"{{"e":"notify","aid":{},"cause":"{}","zombie":{}}}"#,
             aid,
@@ -472,6 +529,9 @@ fn submit_ev(q: &str, item: &Value, extra: String) {
     ));
 }
 
+// Payload of a panic made on purpose by the "boom" op
+struct Boom;
+
 fn exec_ops(ops: &[Value], ctx: &mut Ctx) {
     for op in ops {
         exec_op(op, ctx);
@@ -482,6 +542,13 @@ fn exec_op(op: &Value, ctx: &mut Ctx) {
     let name = op["op"].as_str().unwrap();
     w(|w| w.during = name.to_string());
     match name {
+        // A panic raised by user code inside a closure / method; the caller
+        // of run() catches the unwind (as the crate's own test harness does)
+        "boom" => {
+            ev(r#"{"e":"boom"}"#.to_string());
+            flush();
+            std::panic::panic_any(Boom);
+        }
         // ------------------------------------------------ queues
         "defer" => {
             let item = &op["item"];
@@ -489,6 +556,24 @@ fn exec_op(op: &Value, ctx: &mut Ctx) {
             let id = get_i(item, "id");
             let seed = (id as u8).wrapping_mul(7);
             let via = op.get("via").and_then(|v| v.as_str()).unwrap_or("core");
+            if via == "actor" {
+                // Actor::defer: needs only a reference to the actor, whatever its state
+                let aid = get_i(op, "aid");
+                let actor = match get_actor(aid) {
+                    Some(a) => a,
+                    None => {
+                        ev(format!(r#"{{"e":"nop","why":"unknown actor {}"}}"#, aid));
+                        return;
+                    }
+                };
+                let tok = Tok::new(item);
+                submit_ev("main", item, r#","via":"actor""#.to_string());
+                shaped!(shape, seed, |pad| actor.defer(move |s| {
+                    pad.check(id);
+                    run_item(s, tok)
+                }));
+                return;
+            }
             let deferrer = match (via, ctx.core()) {
                 ("core", Some(_)) => None,
                 _ => match w(|w| w.deferrer.clone()) {
@@ -858,6 +943,63 @@ fn exec_op(op: &Value, ctx: &mut Ctx) {
                 panic!("harness: apply needs stakker");
             }
         }
+        "query" => {
+            // Actor::query: synchronous; runs the method only on a Ready actor
+            // (a stop!/fail! made by it takes effect before query returns),
+            // otherwise the closure is released un-run and None is returned
+            let aid = get_i(op, "aid");
+            let item = &op["item"];
+            let actor = match get_actor(aid) {
+                Some(a) => a,
+                None => {
+                    ev(format!(r#"{{"e":"nop","why":"unknown actor {}"}}"#, aid));
+                    return;
+                }
+            };
+            if let Ctx::S(s) = ctx {
+                let tok = Tok::new(item);
+                let id = get_i(item, "id");
+                ev(format!(r#"{{"e":"query","item":{},"aid":{}}}"#, id, aid));
+                let r = actor.query(s, move |n, cx| {
+                    n.meth(cx, tok);
+                    id
+                });
+                ev(format!(
+                    r#"{{"e":"querye","item":{},"aid":{},"some":{},"okval":{}}}"#,
+                    id,
+                    aid,
+                    r.is_some(),
+                    r.map(|v| v == id).unwrap_or(true)
+                ));
+            } else {
+                panic!("harness: query needs stakker");
+            }
+        }
+        "vdefer" => {
+            // the actor value will defer this item from its Drop handler (Actor::defer)
+            if let Ctx::M(n, cx) = ctx {
+                if n.vdefer.me.is_none() {
+                    n.vdefer.me = Some(cx.this().clone());
+                }
+                n.vdefer.items.push(op["item"].clone());
+            } else {
+                panic!("harness: vdefer outside Ready method");
+            }
+        }
+        "park" => {
+            let oid = get_i(op, "oid");
+            let own = w(|w| w.owns.remove(&oid)).and_then(|mut h| h.own.take());
+            let ret = op
+                .get("rid")
+                .and_then(|v| v.as_i64())
+                .and_then(|rid| w(|w| w.rets.remove(&rid)))
+                .and_then(|mut h| h.ret.take());
+            let d = w(|w| w.deferrer.clone());
+            ev(format!(r#"{{"e":"park","oid":{}}}"#, oid));
+            if own.is_some() || ret.is_some() {
+                PARKED.with(|p| p.borrow_mut().push(ParkH { own, ret, d }));
+            }
+        }
         "stop" => match ctx {
             Ctx::M(n, cx) => {
                 ev(format!(r#"{{"e":"stop","aid":{}}}"#, n.aid));
@@ -1194,6 +1336,25 @@ fn top_op(op: &Value, stk: &mut Option<Stakker>) {
             drop(s);
             ev(r#"{"e":"droppedstakker"}"#.to_string());
         }
+        "restakker" => {
+            // A second Stakker on the same thread after the first one is gone:
+            // whatever the first one's handles deferred post-mortem must be
+            // released by Stakker::new, never executed by the new runtime
+            if stk.is_some() {
+                ev(r#"{"e":"dropstakker"}"#.to_string());
+                drop(stk.take());
+                ev(r#"{"e":"droppedstakker"}"#.to_string());
+            }
+            clear_world();
+            let d = w(|w| w.deferrer.take());
+            drop(d);
+            ev(r#"{"e":"renew"}"#.to_string());
+            let base = base();
+            *stk = Some(Stakker::new(base));
+            ev(r#"{"e":"renewed"}"#.to_string());
+            let d = stk.as_ref().unwrap().deferrer();
+            w(|w| w.deferrer = Some(d));
+        }
         "setlogger" => {
             #[cfg(feature = "logger")]
             {
@@ -1340,6 +1501,8 @@ fn clear_world() {
 }
 
 fn main() {
+    // registered before the runtime's thread-locals: destroyed after them
+    PARKED.with(|p| p.borrow_mut().reserve(1));
     let args: Vec<String> = std::env::args().collect();
     let path = &args[1];
     let mut from = 0usize;
@@ -1420,6 +1583,40 @@ fn main() {
             let flushcheck = !case.get("noflushcheck").and_then(|v| v.as_bool()).unwrap_or(false);
             ev(format!(r#"{{"e":"end","leakcheck":{},"flushcheck":{}}}"#, leakcheck, flushcheck));
         }));
+        if let Err(pl) = &res {
+            if pl.is::<Boom>() {
+                // Caught user panic: what is left is released in the normal
+                // order; only at-most-once dropping / execution is judged
+                let _ = PANIC_MSG.with(|p| p.borrow_mut().take());
+                let res2 = catch_unwind(AssertUnwindSafe(|| {
+                    w(|w| w.during = "teardown after caught panic".to_string());
+                    clear_world();
+                    if stk.is_some() {
+                        ev(r#"{"e":"dropstakker"}"#.to_string());
+                        drop(stk.take());
+                        ev(r#"{"e":"droppedstakker"}"#.to_string());
+                    }
+                    clear_world();
+                    let d = w(|w| w.deferrer.take());
+                    drop(d);
+                    ev(r#"{"e":"flush"}"#.to_string());
+                    drop(Stakker::new(process_base));
+                }));
+                if res2.is_err() {
+                    let msg = PANIC_MSG.with(|p| p.borrow_mut().take()).unwrap_or_default();
+                    let msg = msg.replace('\\', "/").replace('"', "'");
+                    ev(format!(
+                        r#"{{"e":"panic","during":"teardown after caught panic","msg":"{}","harness":{}}}"#,
+                        msg,
+                        msg.starts_with("harness:") || msg.contains("seqdrv.rs")
+                    ));
+                }
+                ev(r#"{"e":"end","leakcheck":false,"flushcheck":false}"#.to_string());
+                flush();
+                println!("{{\"e\":\"restart\",\"next\":{}}}", idx + 1);
+                std::process::exit(3);
+            }
+        }
         if res.is_err() {
             let msg = PANIC_MSG.with(|p| p.borrow_mut().take()).unwrap_or_default();
             let during = W.with(|w| w.try_borrow().map(|w| w.during.clone()).unwrap_or_default());
